@@ -380,6 +380,9 @@ func (fr *Frame) invokeAbstract(st *State, site ssa.Instruction, iv *IfaceV, cc 
 	if r, ok := fr.ifaceIntrinsic(st, site, iv, cc, args); ok {
 		return r
 	}
+	if r, ok := fr.ifaceContract(st, site, iv, cc, args); ok {
+		return r
+	}
 	unsup("interface method call %s on unknown dynamic type", cc.Method.Name())
 	return nil
 }
@@ -479,11 +482,37 @@ func (fr *Frame) copyBuiltin(st *State, dstV, srcV Value) Value {
 		}
 		return n
 	}
+	// concrete destination array, symbolic window: cell-wise conditional update
+	if da, isAgg := fr.v.getPath(fr.v.content(st, dst.Obj), dst.Path).(*AggV); isAgg && len(da.Elems) <= 256 {
+		fr.v.noteWrite(fr, st, dst.Obj, dst.Path)
+		srcC := fr.v.getPath(fr.v.content(st, src.Obj), src.Path)
+		es := make([]Value, len(da.Elems))
+		for k := range da.Elems {
+			kk := F.I64(int64(k))
+			in := F.And(F.Le(dst.Off, kk), F.Lt(kk, F.Add(dst.Off, n)))
+			var sv Value
+			switch sc := srcC.(type) {
+			case *ArrV:
+				sv = F.Select(sc.Arr, F.Add(F.Sub(kk, dst.Off), src.Off))
+			case *AggV:
+				sv = fr.v.getPath(sc, []PE{{T: F.Add(F.Sub(kk, dst.Off), src.Off)}})
+			default:
+				unsup("copy from %T", srcC)
+			}
+			if in.IsFalse() {
+				es[k] = da.Elems[k]
+			} else {
+				es[k] = fr.v.mergeV(in, sv, da.Elems[k])
+			}
+		}
+		st.mem[dst.Obj] = fr.v.setPath(fr.v.content(st, dst.Obj), dst.Path, &AggV{es})
+		return n
+	}
 	// symbolic length: array-level copy via quantified fresh array
 	dc, okd := fr.v.getPath(fr.v.content(st, dst.Obj), dst.Path).(*ArrV)
 	sc, oks := fr.v.getPath(fr.v.content(st, src.Obj), src.Path).(*ArrV)
 	if !okd || !oks {
-		unsup("symbolic-length copy on concrete arrays")
+		unsup("symbolic-length copy on concrete arrays: dst %T src %T", fr.v.getPath(fr.v.content(st, dst.Obj), dst.Path), fr.v.getPath(fr.v.content(st, src.Obj), src.Path))
 	}
 	fr.v.noteWrite(fr, st, dst.Obj, dst.Path)
 	fr.v.fresh++
@@ -588,4 +617,73 @@ func (fr *Frame) appendBuiltin(st *State, site ssa.Instruction, cc *ssa.CallComm
 	ncap := F.FreshRanged("appendcap", big.NewInt(0), bigMaxLen)
 	st.pc = F.And(st.pc, F.Le(nl, ncap))
 	return &SliceV{Obj: o, Off: F.I64(0), Len: nl, Cap: ncap}
+}
+
+// ifaceContract applies an (assumed) contract stated for an interface method:  //@ func (pkg.Iface).Method
+func (fr *Frame) ifaceContract(st *State, site ssa.Instruction, iv *IfaceV, cc *ssa.CallCommon, args []Value) (Value, bool) {
+	v := fr.v
+	it := cc.Value.Type()
+	name := ""
+	if n, ok := it.(*types.Named); ok {
+		name = n.Obj().Name()
+		if n.Obj().Pkg() != nil {
+			name = n.Obj().Pkg().Name() + "." + name
+		}
+	}
+	var c *Contract
+	for k, cand := range v.contracts {
+		if strings.HasSuffix(k, ".("+name+")."+cc.Method.Name()) || strings.Contains(k, ".("+name+")."+cc.Method.Name()+"@") {
+			if v.layerKeyOf(fr.fn.Pkg, cand) == v.curLayerKey || cand.Layer == "" {
+				c = cand
+			}
+		}
+	}
+	if c == nil {
+		return nil, false
+	}
+	F := v.F
+	sig := cc.Method.Type().(*types.Signature)
+	vars := map[string]Value{"recv": iv}
+	for i := 0; i < sig.Params().Len() && i < len(args); i++ {
+		if n := sig.Params().At(i).Name(); n != "" {
+			vars[n] = args[i]
+		}
+		vars[fmt.Sprintf("arg%d", i)] = args[i]
+	}
+	se := &SpecEnv{fr: fr, st: st, old: st, vars: vars, pkg: fr.fn.Pkg, fn: fr.fn}
+	for k, r := range c.Requires {
+		fr.oblige(st, fmt.Sprintf("pre:%s:%d", cc.Method.Name(), k+1), se.evalBool(r), "precondition of interface method "+name+"."+cc.Method.Name()+": "+r.Src)
+	}
+	old := st.clone()
+	for _, lv := range c.Modifies {
+		fr.havocLvalue(st, se, lv, "h!"+cc.Method.Name())
+	}
+	res := sig.Results()
+	var result Value
+	mk := func(i int, t types.Type) Value {
+		if _, isIface := t.Underlying().(*types.Interface); isIface {
+			return &IfaceV{V: F.Fresh("r!"+cc.Method.Name()+"!err", mkSort("Iface"))}
+		}
+		v.fresh++
+		return v.symValue(fmt.Sprintf("r!%s!%d_%d", cc.Method.Name(), v.fresh, i), t, false)
+	}
+	switch res.Len() {
+	case 0:
+	case 1:
+		result = mk(0, res.At(0).Type())
+		vars["result"] = result
+	default:
+		es := make([]Value, res.Len())
+		for i := range es {
+			es[i] = mk(i, res.At(i).Type())
+			vars[fmt.Sprintf("result%d", i)] = es[i]
+		}
+		result = &TupleV{es}
+	}
+	se2 := &SpecEnv{fr: fr, st: st, old: old, vars: vars, pkg: fr.fn.Pkg, fn: fr.fn, ghostLocal: map[string]*Term{}}
+	for _, e := range c.Ensures {
+		st.pc = F.And(st.pc, se2.evalBool(e.E))
+	}
+	v.assume(fmt.Sprintf("assumed contract of interface method (%s).%s: %s", name, cc.Method.Name(), c.Assumed))
+	return result, true
 }
